@@ -962,7 +962,8 @@ class EarlyStopConverter:
     )
     return policy.EarlyStopRequest(
         study_descriptor=study_descriptor,
-        trial_ids=proto.trial_ids,
+        # No ids on the wire means "all Trials" (None), as sent.
+        trial_ids=proto.trial_ids or None,
         checkpoint_dir=proto.checkpoint_dir,
     )
 
